@@ -71,13 +71,14 @@ CHECKS["C02"] = dict(
 
 CHECKS["C18"] = dict(
     level_text="(1) For every sorted list of plausible paths within the bounds the solver shows dedupePaths returns a non-nested covering sub-list (nil iff the root is listed). (2) The real FollowLinks (symlinkResolver, statFile/readDir over the real NewFS on the model file system) is executed for every assignment of link targets and every request list inside the bounds and compared with an independent physical chroot-style resolver: it terminates, the result is sorted and non-nested, covers every traversed symlink and the final location when it exists, and is empty when the root is reached.",
-    level_note="Bounds: lists of 3 (quick) / 4 (thorough) paths of 1..3 (quick) / 1..4 (thorough) symbolic bytes; resolver: fixed tree shape, 12 candidate link targets on three links, 1 (quick) / 2 (thorough) requests out of 11; requests on which the reference resolver itself hits its 40-hop limit only assert termination; wildcard requests and the end-to-end transfer with follow-paths are outside. " + FS_TRUST + BASE_TRUST,
+    level_note="Bounds: lists of 3 (quick) / 4 (thorough) paths of 1..3 (quick) / 1..4 (thorough) symbolic bytes; resolver: fixed tree shape, 12 candidate link targets on three links, 1 (quick) / 2 (thorough) requests out of 11; requests on which the reference resolver itself hits its 40-hop limit only assert termination; wildcard requests only in the fan-out obligation (last component); the end-to-end transfer with follow-paths is outside. " + FS_TRUST + BASE_TRUST,
     assumptions=["inputs are strictly ascending bytewise and are '.' or relative paths without empty or '.' components (what filepath.Join produces in FollowLinks)"],
     obligations=[
         ob("VH_C18_dedupe", dict(K=3, N=3), Q, covers=["dot", "nodot"], bounds="3 paths of 1..3 bytes"),
         ob("VH_C18_dedupe", dict(K=4, N=3), T, covers=["dot", "nodot"], bounds="4 paths of 1..3 bytes"),
         ob("VH_C18_dedupe", dict(K=3, N=4), T, covers=["dot", "nodot"], bounds="3 paths of 1..4 bytes"),
         ob("VH_C18_resolve", dict(NREQ=1), covers=["needs", "root-reached", "hop-limit", "lexical-dotdot"], bounds="model-FS tree {d/, d/x, d/y, d/s/, d/f, f, S->d/s, L, L2, d/M?} with every assignment of 12 candidate targets (relative, absolute, '..' beyond the root, chains, loops, dangling, links in intermediate components) to L, L2, d/M; one request out of 11"),
+        ob("VH_C18_wildcard", dict(N=45), covers=["done"], bounds="one wildcard request matching 45 two-step symlink chains (more links followed in total than the 40-hop bound of one resolution), optionally one dangling match", max_steps=30000000),
         ob("VH_C18_resolve", dict(NREQ=2), T, covers=["needs", "root-reached", "hop-limit", "lexical-dotdot"], bounds="as quick with every ordered pair of requests", max_paths=900000),
     ],
 )
